@@ -184,7 +184,9 @@ func basmCLI(tools, dir string, env []string, files ...string) ([]byte, error) {
 		return nil, err
 	}
 	os.Remove(filepath.Join(dir, "bm.json"))
-	args := append([]string{"-chooser-min-word-size", "-chooser-force-same-name", "-o", "bm.json"}, files...)
+	os.Remove(filepath.Join(dir, "requirements.json"))
+	// (the requirement tree is dumped too: it is the input of the hardware optimisations)
+	args := append([]string{"-chooser-min-word-size", "-chooser-force-same-name", "-dump-requirements", "requirements.json", "-o", "bm.json"}, files...)
 	out, err := runTool(dir, env, 120*time.Second, bin, args...)
 	if err != nil {
 		return nil, fmt.Errorf("basm: %v: %s", err, tailStr(out, 400))
